@@ -361,6 +361,7 @@ func VerifC14Items() {
 // deterministic, re-chunking invariant
 type c14Sum struct{ N int }
 type c14Plain struct{ V int }
+type c14Counts map[string]int
 
 var c14Registered = false
 
@@ -373,8 +374,21 @@ func VerifC14Generic() {
 			}
 			return c14Sum{s}, nil
 		})
+		internal.RegisterStreamChunkConcatFunc(func(xs []c14Counts) (c14Counts, error) {
+			r := c14Counts{}
+			for _, x := range xs {
+				for k, v := range x {
+					r[k] += v
+				}
+			}
+			return r, nil
+		})
 		c14Registered = true
 	}
+	// (0) a registered custom type of map kind: its own function decides (per-key sum), not the generic map rule
+	ca, cb := vsymInt("ca"), vsymInt("cb")
+	cs, cerr := internal.ConcatItems([]c14Counts{{"k": ca}, {"k": cb, "j": 1}})
+	vassert(cerr == nil && cs["k"] == ca+cb && cs["j"] == 1, "a concat function registered for a map-kind type is the one that concatenates its chunks")
 	n := 3
 	// (1) a struct type without a function
 	var xs []c14Plain
